@@ -368,7 +368,6 @@ fn check_program(p: &synth::Prog, tt: &BTreeMap<&'static str, Target>, all_targe
 pub fn run(tier: Tier) -> i32 {
     util::quiet();
     let mut run = Run::new("C01", if tier == Tier::Quick { "quick" } else { "thorough" });
-    let c = corpus::build(tier);
     let tt_vec = target_table();
     let mut tt: BTreeMap<&'static str, Target> = BTreeMap::new();
     for (k, t) in &tt_vec {
@@ -379,35 +378,56 @@ pub fn run(tier: Tier) -> i32 {
         all_targets.insert(*t);
     }
     let sets = detector_sets();
-    let n = c.progs.len();
-    let res = util::par_map(n, |i| {
-        let pairs_mode = tier == Tier::Thorough && (c.progs[i].tag.starts_with("B2") || c.progs[i].tag.starts_with("D"));
-        check_program(&c.progs[i], &tt, &all_targets, &sets, tier, pairs_mode)
-    });
     let mut roots = 0u64;
     let mut calls = 0u64;
     let mut nodes = 0u64;
     let mut validated = 0u64;
     let mut pairs: HashSet<(&'static str, &'static str)> = HashSet::new();
     let mut slots: HashSet<&'static str> = HashSet::new();
-    let mut sigs: Vec<u64> = Vec::new();
-    for o in &res {
-        roots += o.roots;
-        calls += o.calls;
-        nodes += o.nodes;
-        sigs.push(o.walk_sig);
-        match &o.conform {
-            Ok(_) => validated += 1,
-            Err(e) => run.machinery(format!("generator/parser disagreement: {}", e)),
+    let mut sig_set: HashSet<u64> = HashSet::new();
+    let mut samples: Vec<serde_json::Value> = Vec::new();
+    let mut replayed = false;
+    let mut n = 0usize;
+    let sum = corpus::stream(tier, &mut |chunk: Vec<synth::Prog>| {
+        n += chunk.len();
+        let res = util::par_map(chunk.len(), |i| {
+            let pairs_mode = tier == Tier::Thorough && (chunk[i].tag.starts_with("B2") || chunk[i].tag.starts_with("D"));
+            check_program(&chunk[i], &tt, &all_targets, &sets, tier, pairs_mode)
+        });
+        if samples.len() < 5 {
+            let p = &chunk[chunk.len() / 2];
+            samples.push(json!({"tag": p.tag, "source": synth::render_sp(&p.toks)}));
         }
-        for p in &o.pairs {
-            pairs.insert(*p);
-            slots.insert(p.0);
+        // determinism self-test on the first chunk: replay a prefix and compare observations
+        if !replayed {
+            replayed = true;
+            let m = chunk.len().min(200);
+            let again = util::par_map(m, |i| check_program(&chunk[i], &tt, &all_targets, &sets, tier, false).walk_sig);
+            for i in 0..m {
+                if again[i] != res[i].walk_sig {
+                    run.machinery(format!("replay divergence on program {}", chunk[i].tag));
+                }
+            }
         }
-    }
-    for o in res {
-        run.merge_violations(o.violations);
-    }
+        for o in &res {
+            roots += o.roots;
+            calls += o.calls;
+            nodes += o.nodes;
+            sig_set.insert(o.walk_sig);
+            match &o.conform {
+                Ok(_) => validated += 1,
+                Err(e) => run.machinery(format!("generator/parser disagreement: {}", e)),
+            }
+            for p in &o.pairs {
+                pairs.insert(*p);
+                slots.insert(p.0);
+            }
+        }
+        for o in res {
+            run.merge_violations(o.violations);
+        }
+    });
+    let c = sum;
     for s in crate::rtree::ALL_SLOTS {
         if !slots.contains(s) {
             run.machinery(format!("coverage hole: parse-tree slot {} never visited", s));
@@ -420,15 +440,7 @@ pub fn run(tier: Tier) -> i32 {
             run.machinery(format!("coverage hole: node kind {} never generated", k));
         }
     }
-    // determinism self-test: replay a prefix and compare observations
-    let m = n.min(200);
-    let again = util::par_map(m, |i| check_program(&c.progs[i], &tt, &all_targets, &sets, tier, false).walk_sig);
-    for i in 0..m {
-        if again[i] != sigs[i] {
-            run.machinery(format!("replay divergence on program {}", c.progs[i].tag));
-        }
-    }
-    let distinct_sigs: HashSet<u64> = sigs.iter().copied().collect();
+    let distinct_sigs = sig_set;
     run.set("states", n as u64);
     run.set("transitions", calls);
     run.set("traces_validated_against_impl", validated);
@@ -442,10 +454,7 @@ pub fn run(tier: Tier) -> i32 {
     run.set("slot_kind_pairs_visited", pairs.len() as u64);
     run.set("families", json!(c.families.iter().map(|(f, k)| json!({"family": f, "programs": k})).collect::<Vec<_>>()));
     run.set("bound_completed", if tier == Tier::Quick { "path length 2 (expression chains), statement chains 2, ordered pairs of declarations" } else { "path length 3 (expression chains B3, A2), statement chains 3, all target pairs on B2 and D" });
-    run.set(
-        "samples",
-        json!(c.progs.iter().step_by((n / 5).max(1)).take(5).map(|p| json!({"tag": p.tag, "source": synth::render_sp(&p.toks)})).collect::<Vec<_>>()),
-    );
+    run.set("samples", json!(samples));
     run.assume("solang-parser 0.1.18: loc.start() of every node is the offset of its first token (Parenthesis: of its operand) — validated on every generated program");
     run.assume("inline assembly is not descended into (excluded by the property)");
     run.finish()
